@@ -18,6 +18,10 @@ recently used first; all pages of one number share a bucket, so their relative o
 order in the bucket) and the `ttx_page_stat` fields `n_subpages` (uint16_t since 5e41e82), `subno_min`,
 `subno_max` (uint16_t since F5a) as cache.c maintains them.
 
+Two statements of the C code exist in two shapes (finding C17-D7 and its repair fixes/C17-turn-3f7f.diff); the model
+follows both, selected by `Shape`.  Which shape /repo has is read from the source text on every run by
+translate/gen_search.py (-> Generated/SearchFlags.lean -> `Shape.current` in Search/Current.lean, used by the driver).
+
 State of the C code modelled: after the repairs a500ea8 (F5a), e6cbe38 (F5b), 5e41e82 (C17-D3: "first page of
 this number" is `1 == n_subpages`, counter 16 bits wide), ed2772e (C17-D4: the walk clamps to the first
 sub-page in walking direction instead of leaving the page), ce86777 (C17-D5: exact look-up inside the walk).
@@ -25,6 +29,22 @@ sub-page in walking direction instead of leaving the page), ce86777 (C17-D5: exa
 namespace Zvbi.Search
 
 def ANY_SUBNO : Int := 0x3F7F
+
+/-- the two source shapes of the statements that read sub-page number 0x3F7F as VBI_ANY_SUBNO (C17-D7) -/
+structure Shape where
+  /-- `_vbi_cache_foreach_page`: the START position is looked up exactly (`page_by_pgno` behind the page number
+      range test) and `subno` stays what the caller gave; `false`: through `_vbi_cache_get_page` (0x3F7F = wildcard),
+      `subno = cp->subno`, and `VBI_ANY_SUBNO` without a page becomes 0 -/
+  startExact : Bool
+  /-- `vbi_search_next`, direction change: `stop_subno[0] = start_subno`; `false`:
+      `stop_subno[0] = (start_subno == VBI_ANY_SUBNO) ? 0 : start_subno` -/
+  turnKeeps : Bool
+deriving DecidableEq, Repr
+
+/-- the code with finding C17-D7 -/
+def Shape.unrepaired : Shape := ⟨false, false⟩
+/-- the code after fixes/C17-turn-3f7f.diff -/
+def Shape.repaired : Shape := ⟨true, true⟩
 def FIRST_ROW : Int := 1
 def LAST_ROW : Int := 24
 def SEPARATOR : Nat := 0x0A
@@ -217,11 +237,22 @@ def startSubOf (cp : Option Entry) (subno : Int) : Int :=
   | some e => (e.subno : Int)
   | none => if subno = ANY_SUBNO then 0 else subno
 
-def walk {σ : Type} (cb : Callback σ) (fuel : Nat) (c : Cache) (s : σ) (pgno subno dir : Int) : WalkOut σ :=
+/-- the look-up of the start position: `_vbi_cache_get_page (ca, cn, pgno, subno, -1)`, or (repaired shape)
+    `if (pgno >= 0x100 && pgno <= 0x8FF) { cp = page_by_pgno (.., subno, -1); if (cp) cp = cache_page_ref (cp); }` -/
+def getStart (sh : Shape) (c : Cache) (pgno subno : Int) : Option Entry × Cache :=
+  if sh.startExact then
+    (if 0x100 ≤ pgno ∧ pgno ≤ 0x8FF then getExact c pgno subno else (none, c))
+  else getPage c pgno subno
+
+/-- sub-page number the walk continues from -/
+def startSubS (sh : Shape) (cp : Option Entry) (subno : Int) : Int :=
+  if sh.startExact then subno else startSubOf cp subno
+
+def walk {σ : Type} (sh : Shape) (cb : Callback σ) (fuel : Nat) (c : Cache) (s : σ) (pgno subno dir : Int) : WalkOut σ :=
   if c.nCached = 0 then ⟨.ret 0, s, c⟩ else
-  let (cp, c1) := getPage c pgno subno
+  let (cp, c1) := getStart sh c pgno subno
   if pgno < 0x100 ∨ pgno > 0x8FF then ⟨.assertFail, s, c1⟩ else
-  loop cb dir fuel c1 s pgno (startSubOf cp subno) false cp
+  loop cb dir fuel c1 s pgno (startSubS sh cp subno) false cp
 
 /-- fuel that always suffices for the walk (theorem `walk_terminates`): every iteration of the outer
     loop moves strictly forward in (wrapped, page number, sub-page number) with sub-page numbers < 2^16 -/
@@ -435,7 +466,7 @@ structure NextOut where
 def dirOf (dirArg : Int) : Int := if dirArg > 0 then 1 else -1
 
 /-- the first part of `vbi_search_next`: start of a pass / change of direction -/
-def prepare (s : SearchSt) (dirArg : Int) : SearchSt :=
+def prepare (sh : Shape) (s : SearchSt) (dirArg : Int) : SearchSt :=
   let dir := dirOf dirArg
   if s.dir = 0 then
     let s := { s with dir := dir, row0 := FIRST_ROW, row1 := LAST_ROW + 1, col0 := 0, col1 := 0 }
@@ -443,7 +474,8 @@ def prepare (s : SearchSt) (dirArg : Int) : SearchSt :=
     else { s with startPgno := s.stopPgno1, startSubno := s.stopSubno1 }
   else if dir ≠ s.dir then
     { s with dir := dir, stopPgno0 := s.startPgno,
-             stopSubno0 := if s.startSubno = ANY_SUBNO then 0 else s.startSubno,
+             stopSubno0 := if sh.turnKeeps then s.startSubno
+                           else (if s.startSubno = ANY_SUBNO then 0 else s.startSubno),
              stopPgno1 := s.startPgno, stopSubno1 := s.startSubno }
   else s
 
@@ -460,9 +492,9 @@ def statusOf (r : Int) : Res :=
   else .ret SEARCH_ERROR
 
 /-- `vbi_search_next` -/
-def searchNext (exec : Exec) (fuel : Nat) (c : Cache) (s : SearchSt) (dirArg : Int) : NextOut :=
-  let s1 := prepare s dirArg
-  let w := walk (callbackOf exec dirArg) fuel c s1 s1.startPgno s1.startSubno (dirOf dirArg)
+def searchNext (sh : Shape) (exec : Exec) (fuel : Nat) (c : Cache) (s : SearchSt) (dirArg : Int) : NextOut :=
+  let s1 := prepare sh s dirArg
+  let w := walk sh (callbackOf exec dirArg) fuel c s1 s1.startPgno s1.startSubno (dirOf dirArg)
   match w.res with
   | .ret r => ⟨statusOf r, if r = -1 then { w.st with dir := 0 } else w.st, w.cache⟩
   | other => ⟨other, w.st, w.cache⟩
